@@ -442,6 +442,8 @@ def check_cob_formulas(facts, rep):
     want = (2, -1, (-1, -1, 1))
     if len(forms) == 2 and all(v == want for v in forms.values()):
         rep.ok('E8.F4-cobordism-formulas', inst, 'const 2, b: -1, Euler numbers: -1, -1, shared arcs: +1 at both sites')
+    elif len(forms) != 2 or any(isinstance(v, str) or len(v[2]) != 3 for v in forms.values()):
+        rep.indet('E8.F4: genus recomputation outside the recognised fragment: %s' % forms)
     else:
         rep.violation('E8.F4-cobordism-formulas', inst,
                       'the genus of a glued cobordism is recomputed as (const, coef of #boundary, other coefs) = %s; both sites must be (2, -1, (-1, -1, +1)), i.e. 2g = 2 - (chi1 + chi2 + b) + a' % forms,
